@@ -226,7 +226,8 @@ def tasks(tier, seed):
     from ..pyvc.driver import verify
     from ..contracts import misc
     ts = [(verify, (misc.DIFFERENCE_VECTOR, "heavy", "Calculus.difference_vector", None)),
-          (verify, (misc.DIFFERENCE_MATRIX, "heavy", "Calculus.difference_matrix", None))]
+          (verify, (misc.DIFFERENCE_MATRIX, "heavy", "Calculus.difference_matrix", None)),
+          (verify, (misc.DERIV_BEZIER, "heavy", "Calculus.derivate_nonrational_bezier", None))]
     ts += [(task_order, (name,)) for name in ORDER_FAMILIES] + [(task_rational_high, ())]
     for p, cells in shapes(tier):
         for variant in ((0, 1) if tier == "quick" else (0, 1, 2)):
